@@ -1317,7 +1317,8 @@ func (sa *Application) tryPlaceholderAllocate(nodeIterator func() NodeIterator, 
 	// we checked all placeholders and asks nothing worked as yet
 	// pick the first fit and try all nodes if that fails give up
 	var allocResult *AllocationResult
-	if phFit != nil && reqFit != nil {
+	// the first fit could have been cancelled while checking a later, larger request of the same task group
+	if phFit != nil && reqFit != nil && !phFit.IsReleased() {
 		resKey := reqFit.GetAllocationKey()
 		iterator.ForEachNode(func(node *Node) bool {
 			if !node.IsSchedulable() {
